@@ -84,9 +84,13 @@ StakedPut(c, ix, n, p) ==
 \* per-chain index: ascending by chain id, then address
 ChainBefore(c, x, y) ==
     c.nx.crank[x[1]] < c.nx.crank[y[1]] \/ (x[1] = y[1] /\ c.nx.rank[x[2]] < c.nx.rank[y[2]])
-ChainDel(ix, ch, n)    == SelectSeq(ix, LAMBDA e : ~(e[1] = ch /\ e[2] = n))
+\* the index key is made of the DECODED chain id (hex): spellings of a chain id that differ only in the
+\* case of their hex digits share one entry.  Binding convention: the drivers use the one upper-case
+\* spelling "00A1" of chain "00a1".
+ChainKey(ch) == IF ch = "00A1" THEN "00a1" ELSE ch
+ChainDel(ix, ch, n)    == SelectSeq(ix, LAMBDA e : ~(e[1] = ChainKey(ch) /\ e[2] = n))
 ChainPut(c, ix, ch, n) ==
-    InsertSorted(ChainDel(ix, ch, n), <<ch, n>>, LAMBDA x, y : ChainBefore(c, x, y))
+    InsertSorted(ChainDel(ix, ch, n), <<ChainKey(ch), n>>, LAMBDA x, y : ChainBefore(c, x, y))
 RECURSIVE ChainPutAll(_, _, _, _), ChainDelAll(_, _, _)
 ChainPutAll(c, ix, chains, n) ==
     IF chains = <<>> THEN ix ELSE ChainPutAll(c, ChainPut(c, ix, Head(chains), n), Tail(chains), n)
@@ -522,7 +526,7 @@ Inv_C21_Staked(s)  == /\ StakedIndexSet(s) = StakedWantSet(s)
 \* per-chain index = exactly the staked nodes (jailed or not: jailing keeps a node's
 \* chains, it only leaves sessions through the jailed flag) for each declared chain
 ChainIndexSet(s)   == SeqToSet(s.ixChain)
-ChainWantSet(s)    == UNION {{<<s.val[n].chains[i], n>> : i \in 1..Len(s.val[n].chains)} :
+ChainWantSet(s)    == UNION {{<<ChainKey(s.val[n].chains[i]), n>> : i \in 1..Len(s.val[n].chains)} :
                              n \in {m \in DOMAIN s.val : Staked(s.val[m])}}
 Inv_C21_Chain(s)   == ChainIndexSet(s) = ChainWantSet(s) /\ Len(s.ixChain) = Cardinality(ChainIndexSet(s))
 \* unstaking queue = exactly the unstaking nodes under their completion time, as sets
